@@ -33,6 +33,8 @@ impl TypeFilter {
 impl Exec for TypeFilter {
     fn exec(&self, interpreter: &mut Interpreter) -> ExecResult {
         let iterator = self.iterator.exec(interpreter)?;
+        #[cfg(feature = "verif")]
+        let _helper = crate::verif::helper_scope();
         let mut interpreter = interpreter.create_layer();
         interpreter.insert("iterator".into(), iterator);
         let default_value = Variable::of_type(&self.var_type).unwrap();
